@@ -319,7 +319,9 @@ func Exp2(d Decimal) Decimal {
 	var expInt int16
 
 	if dSigInt != 0 {
-		if dSigInt > exponentBias+maxDigits {
+		// 2**20704 is above the largest Decimal and 2**-20704 rounds to zero
+		// (log2(10) < 10/3).
+		if dSigInt > (exponentBias+maxDigits)*10/3 {
 			if d.Signbit() {
 				return zero(false)
 			}
